@@ -366,19 +366,6 @@ theorem no_overflow (s : PState) (p : Int) (h : PInv s) (hmx : s.maxI ≤ 2 ^ 58
 
 /-! ## Closed loop: what is proved, and the full statement -/
 
-/-- an idealised steady producer: one certificate every `period`, the first at time `phase`;
-`produced t` certificates exist at time `t` -/
-def produced (period phase t : Int) : Int := if t < phase then 0 else (t - phase) / period + 1
-
-/-- closed loop of the predictor against the steady producer, ignoring request time: poll at `t`,
-feed the number of new certificates, wait the returned interval -/
-def closedLoop (period phase : Int) : Nat → PState → Int → Int → List Int
-  | 0, _, _, _ => []
-  | n + 1, s, t, seen =>
-    let now := produced period phase t
-    let r := update s (now - seen)
-    r.1 :: closedLoop period phase n r.2 (t + r.1) now
-
 /-- Full closed-loop claim of the property ("settles at the production interval instead of
 collapsing to the minimum or drifting to the maximum"): for a production period inside the
 configured range, from some poll on every wait stays within a factor two of the period. NOT proved
